@@ -541,6 +541,8 @@ package render
 //@ assigns writer, alloc S$Int, alloc S$Val
 //@ ensures onlyw: forall(x, "Val", x != w && x != wsink(w) && !newbuf(x) && !is(x, *render.trimWriter) ==> wtotal(x) == old(wtotal(x)))
 //@ ensures nilPrintsNothing: values.ToLiquid(value) == nil ==> result == nil && forall(x, "Val", wtotal(x) == old(wtotal(x)))
+// scalars are printed as values.Sprint's text, the text filters see (C16, C17)
+//@ at call Sprint #1 before assert sameText: arg0 == values.ToLiquid(value)
 //@ loop 1 invariant onlyw: forall(x, "Val", x != w && x != wsink(w) && !newbuf(x) && !is(x, *render.trimWriter) ==> wtotal(x) == old(wtotal(x)))
 //@ loop 1 invariant writer: is(w, *render.trimWriter) ==> valid(as(w, *render.trimWriter))
 
